@@ -1,4 +1,5 @@
 import Tup.Lemmas.TrkStep
+import Tup.Lemmas.TrkBytes
 /-! Inputs that satisfy the side conditions of C16's theorems (for the non-vacuity examples). No Mathlib. -/
 namespace Tup.Trk
 open Tup Tup.Spec
@@ -36,5 +37,25 @@ theorem xPut_WF (rows cols : Int) (noMove : Bool) : (xPut rows cols noMove).WF :
   intro k hk
   rw [parse_x, List.mem_replicate] at hk
   rw [hk.2]; rfl
+
+theorem closed_x (c : Nat) : Closed (List.replicate c (120 : UInt8)) := by
+  induction c with
+  | zero => exact closed_nil
+  | succ n ih =>
+    have h1 : Closed [(120 : UInt8)] := by
+      intro rest
+      have := parse_step (.char 120) (fun fuel rest => EscL.parse_char1 120 (by decide) (by decide) fuel rest) (by decide) rest
+      have e : Tok.serialize (.char 120) = [120] := by decide
+      rw [e] at this
+      rw [this]
+      have e2 : parse [(120 : UInt8)] = [.char 120] := by decide
+      rw [e2]; rfl
+    rw [List.replicate_succ]
+    exact closed_append (a := [120]) h1 ih
+
+theorem xPut_closed (rows cols : Int) (noMove : Bool) : ∀ c r, ∀ l ∈ (xPut rows cols noMove).lines c r, Closed l := by
+  intro c r l hl
+  simp only [xPut, xLines, List.mem_replicate] at hl
+  rw [hl.2]; exact closed_x c
 
 end Tup.Trk
